@@ -69,7 +69,8 @@ func (h *harness) startSigners(dir, privF, otherF string, vListen int, mk func(s
 				break
 			}
 			if time.Now().After(deadline) {
-				Must(fmt.Errorf("no mesh route from %s to c15v: %s %v", s.d.ID, l, err))
+				h.fatal = fmt.Sprintf("no mesh route from %s to c15v: %s %v", s.d.ID, l, err)
+				return
 			}
 			time.Sleep(50 * time.Millisecond)
 		}
